@@ -1,4 +1,4 @@
-CONSTANTS Hosts <- H2  Weights <- WDeg  StratSet <- SRR  WtSet <- BoolBoth  RefreshLists <- Lists1x  Codes <- C1
+CONSTANTS Hosts <- H2  Types <- TStatic  Weights <- WDeg  StratSet <- SRR  WtSet <- BoolBoth  RefreshLists <- Lists1x  Codes <- C1
 SPECIFICATION Spec
 INVARIANTS TypeOK SelectsMember ErrorIffNoneEligible NoneEligibleMeans Rotation WeightedCycle CycleCoversAll
 CHECK_DEADLOCK FALSE
